@@ -134,12 +134,22 @@ Record link := mkL {
   lk_stale : list Z }.     (* keys removed by the previous target's last tick, if that was an earlier cycle *)
 Definition l0 : link := mkL None MIN_DT MIN_DT [] [].
 
+(* the selection operators' own state.  Plain ops use only s_out.  CHAINED selection
+   (op 6, 7): outer = select(c2, inner, C) where inner = if_then_else(c1, A, B) is itself
+   a reference output: s_in is the inner REF output, s_c2 the outer selector's last
+   value (the outer node is also evaluated when the inner reference ticks). *)
+Record selst := mkSel {
+  s_in  : option nat;      (* inner REF output (None = not valid) *)
+  s_c2  : option Z;        (* last value of the outer selector input *)
+  s_out : option nat }.    (* the REF output the consumers read through (None = not valid) *)
+Definition sel0 : selst := mkSel None None None.
+
 Record state := mkS {
-  tgts : list target;      (* index 0,1,2 = true/lt, false/eq, gt *)
-  rout : option nat;       (* value of the selector's REF output (None = not valid) *)
-  rlmt : Z;                (* its modification time *)
+  tgts : list target;      (* index 0,1,2 = true/lt, false/eq, gt  (chained: A, B, C) *)
+  sel  : selst;
   lnk  : link }.
-Definition s0 : state := mkS [t0; t0; t0] None MIN_DT l0.
+Definition s0 : state := mkS [t0; t0; t0] sel0 l0.
+Definition rout (st : state) : option nat := s_out (sel st).
 
 Definition get_t (ts : list target) (i : nat) : target := nth i ts t0.
 
@@ -147,6 +157,7 @@ Definition get_t (ts : list target) (i : nat) : target := nth i ts t0.
 Record cyc := mkC {
   c_t     : Z;
   c_sel   : option Z;                   (* selector source ticks with this value *)
+  c_sel2  : option Z;                   (* chained ops: the OUTER selector source (k = 4) ticks *)
   c_ticks : list (option (list Z));     (* per target: payload of its tick *)
   c_poke  : bool;                       (* the unrelated poke source ticks *)
   c_force : bool;                       (* every consumer is evaluated anyway: the first cycle of the
@@ -185,13 +196,52 @@ Definition sel_target (op v : Z) : nat :=
    selector input ticked (so condition.modified holds); a REF input bound to an
    ordinary output is valid from the start, so selected.valid holds.
    Result: Some s = publish reference s;  None = return without publishing. *)
-Definition selector (op v : Z) (out : option nat) : option nat :=
-  let s := sel_target op v in
+Definition publish (s : nat) (out : option nat) : option nat :=
   match out with
   | Some cur => if Nat.eqb cur s then None   (* same-reference de-duplication *)
                 else Some s
   | None => Some s
   end.
+Definition selector (op v : Z) (out : option nat) : option nat := publish (sel_target op v) out.
+
+Definition is_some {A} (o : option A) : bool := match o with Some _ => true | None => false end.
+Definition chained (op : Z) : bool := (op =? 6) || (op =? 7).
+(* does the outer selector value pick the branch fed by the inner selection?
+   op 6: if_then_else(c2, inner, C);  op 7: if_cmp(cmp2, inner, C, C) *)
+Definition picks_inner (op v2 : Z) : bool := if op =? 7 then v2 <=? 0 else negb (v2 =? 0).
+
+(* One cycle of the selection operators: new selection state and what the consumer-side
+   reference output publishes (None = no tick).
+   Chained: the inner if_then_else is evaluated iff c1 ticked; the outer node is evaluated
+   iff c2 ticked or the inner reference ticked (its branch input is a REF bound to a REF
+   output, which ticks with it), provided c2 is valid; then the SAME code runs:
+     guard     condition.modified || selected.modified   (selected.modified: the inner
+               branch iff the inner reference ticked now; the C branch never)
+     valid     selected.valid  (the inner branch iff the inner reference is valid)
+     de-dup    out.valid && out.value == reference  (the inner branch's value IS the
+               reference the inner output holds: references compare by target)
+     publish. *)
+Definition sel_eval (op : Z) (ss : selst) (c_sel c_sel2 : option Z) : selst * option nat :=
+  if chained op then
+    let pin := match c_sel with Some v => selector 0 v (s_in ss) | None => None end in
+    let rin := match pin with Some s => Some s | None => s_in ss end in
+    let c2 := match c_sel2 with Some v => Some v | None => s_c2 ss end in
+    let pout :=
+      match c2 with
+      | None => None
+      | Some v2 =>
+          let inner := picks_inner op v2 in
+          if is_some c_sel2 || (inner && is_some pin) then
+            match (if inner then rin else Some 2%nat) with
+            | None => None
+            | Some s => publish s (s_out ss)
+            end
+          else None
+      end in
+    (mkSel rin c2 (match pout with Some s => Some s | None => s_out ss end), pout)
+  else
+    let pout := match c_sel with Some v => selector op v (s_out ss) | None => None end in
+    (mkSel None None (match pout with Some s => Some s | None => s_out ss end), pout).
 
 (* contents of a target as they were before cycle t *)
 Definition contents_before (t : Z) (g : target) : kv := if tlmt g =? t then tprev g else tval g.
@@ -262,11 +312,10 @@ Definition step (sh : shape) (op : Z) (st : state) (c : cyc) : state * cout :=
   let bound_ticked := match lk_tgt (lnk st) with Some i => ticks c i | None => false end in
   let l1 := if bound_ticked then mkL (lk_tgt (lnk st)) t (lk_trans (lnk st)) (lk_prev (lnk st)) (lk_stale (lnk st)) else lnk st in
   (* phase 2: the selector is evaluated iff its selector input ticked *)
-  let pub := match c_sel c with Some v => selector op v (rout st) | None => None end in
+  let '(ss', pub) := sel_eval op (sel st) (c_sel c) (c_sel2 c) in
   (* phase 3: a tick of the reference output refreshes the dereferencing link *)
   let '(l2, renot) := match pub with Some s => rebind sh t ts s l1 | None => (l1, false) end in
-  let st' := mkS ts (match pub with Some s => Some s | None => rout st end)
-                    (match pub with Some _ => t | None => rlmt st end) l2 in
+  let st' := mkS ts ss' l2 in
   (* phase 4: the consumers that were notified (or poked) are evaluated *)
   let r := read sh t ts l2 in
   let nest_eval := c_nest c && ((match pub with Some _ => true | None => false end) || c_poke c) in
@@ -297,7 +346,7 @@ Definition script_line (l : line) : option (Z * Z * list Z) :=
   end.
 
 Definition wired (op k : Z) : bool :=
-  (k =? 0) || (k =? 1) || (k =? 2) || ((k =? 3) && (op =? 1)) || (k =? 7).
+  (k =? 0) || (k =? 1) || (k =? 2) || ((k =? 3) && ((op =? 1) || chained op)) || ((k =? 4) && chained op) || (k =? 7).
 
 Fixpoint insert_uniq (t : Z) (l : list Z) : list Z :=
   match l with
@@ -324,7 +373,8 @@ Definition payload_at (k t : Z) (w : wire) : option (list Z) :=
 
 Definition cyc_at (op s : Z) (w : wire) (t : Z) : cyc :=
   mkC t (match payload_at 0 t w with Some p => Some (hdz p) | None => None end)
-      [payload_at 1 t w; payload_at 2 t w; if op =? 1 then payload_at 3 t w else None]
+      (if chained op then match payload_at 4 t w with Some p => Some (hdz p) | None => None end else None)
+      [payload_at 1 t w; payload_at 2 t w; if (op =? 1) || chained op then payload_at 3 t w else None]
       (match payload_at 7 t w with Some _ => true | None => false end)
       (nested_consumers op && (t =? s)) (op =? 5).
 
